@@ -541,7 +541,14 @@ pub fn run(prop: &str, tier: &str, extra: &[String]) -> i32 {
     let known = load_known();
     let mut new_violations = 0;
     let mut known_hits = 0;
+    let mut harness_errors = 0;
     for (sig, rf) in &found {
+        if sig.ends_with("/harness-error") {
+            harness_errors += 1;
+            let path = write_replay(rf);
+            eprintln!("simplc: harness error: the simulator's own code panicked ({}); trace kept at {}", rf.detail, path.display());
+            continue;
+        }
         let k = known.findings.iter().find(|k| k.property == rf.property && k.signature == *sig && k.status == "open");
         match k {
             Some(k) => {
@@ -617,6 +624,8 @@ pub fn run(prop: &str, tier: &str, extra: &[String]) -> i32 {
     );
     if new_violations > 0 {
         1
+    } else if harness_errors > 0 {
+        2
     } else {
         0
     }
